@@ -123,7 +123,8 @@ def step_contract(k):
             return (vm.pc == decode_newpc(script, pc),
                     vm.op_count == old(vm.op_count) + (1 if k > OP_16 else 0),
                     vm.script == script, vm.flags == old(vm.flags),
-                    vm.begin_code_hash == (decode_newpc(script, pc) if (k == OP_CODESEPARATOR and old(executing(vm))) else old(vm.begin_code_hash)))
+                    vm.begin_code_hash == (decode_newpc(script, pc) if (k == OP_CODESEPARATOR and old(executing(vm))) else old(vm.begin_code_hash)),
+                    vm.conditional_stack.true_count >= 0, vm.conditional_stack.false_count >= 0, decode_ok(script, pc))
 
         def ensures_unexecuted(vm, result):
             """in an unexecuted branch nothing but the conditionals themselves changes anything"""
@@ -199,8 +200,9 @@ class step_any_opcode:
     the must-fail conditions of the 252 proved per-opcode contracts; the four CHECKSIG-family entries are not covered."""
     props = ["C03"]
     verify = False
-    assumed_reason = ("conjunction of the proved per-opcode step contracts (loop_state clauses and limit failures) for 252 of the 256 "
-                      "opcode values; unproved for OP_CHECKSIG, OP_CHECKSIGVERIFY, OP_CHECKMULTISIG, OP_CHECKMULTISIGVERIFY")
+    assumed_reason = ("every clause is literally one of the ensures_loop_state clauses proved for each of the 252 per-opcode step contracts "
+                      "(pc, decode_ok, script, flags, non-negative conditional counters); unproved for the four entries without a handler "
+                      "contract: OP_CHECKSIG, OP_CHECKSIGVERIFY, OP_CHECKMULTISIG, OP_CHECKMULTISIGVERIFY")
     sig = dict(self=VM)
     assigns = ["self!", "self.stack", "self.altstack", "self.conditional_stack"]
 
